@@ -117,6 +117,7 @@ def run(ck):
     )
     ck.rule("STATE", "state updates of the coin have the documented dependence shape on every path")
     ck.rule("DRAW", "returned elements come from the validated conversion of next(); integers are masked and counted")
+    ck.rule("VALID", "from_random_bytes (the conversion behind draw) constructs only elements inside the field's representation range, for every byte string")
     ck.rule("POW", "prover's search predicate is the complement of the verifier's reject predicate; measure is read-only")
 
     impls = [im for im in prog.impls if im.get("trait") == COIN and im["crate"] != "examples"]
@@ -146,6 +147,10 @@ def run(ck):
         check_clz(ck, prog, label, meth["check_leading_zeros"])
     pow_complement(ck, prog)
     controls(ck, prog, impls)
+    # "every drawn element is a valid element": the conversion draw() goes through constructs only values inside the field's
+    # representation range (interval analysis over all byte strings; shared with C07's REPR)
+    from . import repr_range
+    repr_range.run_rule(ck, prog, rule="VALID", fields=("f62", "f64"), only=lambda f: f.nname.endswith("::from_random_bytes"), floor=1)
 
 
 def _field_in(g, w, name):
